@@ -239,6 +239,8 @@ def run_all(prop, cfg, tier, seed, workroot, scale=1, seed_shift=0):
     specs = cfg["runs"]
     jobs = []
     for si, spec in enumerate(specs):
+        if spec.get("thorough_only") and tier != "thorough":
+            continue
         total = int(spec["cases"][tier] * scale)
         shards = spec.get("shards", {}).get(tier, 1)
         per = max(1, total // shards) if not spec.get("per_shard_cases") else max(1, int(spec["cases"][tier] * scale))
